@@ -554,6 +554,13 @@ fn suite(out: &mut Vec<String>) {
             uri2.push(b'!');
             out.push(recv_line(&c, &format!("suite-utf8-{}", i), &f(Some(&uri2), None, None)));
         }
+        // multi-byte sequences cut off by the END of the string
+        let cut: Vec<&[u8]> = vec![&[0xc2], &[0xdf], &[0xe0], &[0xe0, 0xa0], &[0xed, 0x80], &[0xef], &[0xf0], &[0xf0, 0x90], &[0xf0, 0x90, 0x80], &[0xf4, 0x8f, 0xbf]];
+        for (i, u) in cut.iter().enumerate() {
+            let mut uri2 = b"urn:".to_vec();
+            uri2.extend_from_slice(u);
+            out.push(recv_line(&c, &format!("suite-utf8-cut-{}", i), &f(Some(&uri2), None, None)));
+        }
         // a URI of exactly max_string_length bytes is decoded (and is an unknown policy), one more is not
         for n in [65535usize, 65536] {
             let long = vec![b'a'; n];
